@@ -29,10 +29,13 @@ BOUNDS = {
     # named: named elements only, 1 configuration
     # implicit: implicit-name sweep; compose: corpus bound for the composition sweep
     'quick': dict(full=[(1, 1, 2), (2, 1, 2), (3, 1, 1)], dev1=[(3, 1, 2), (4, 0, 1)], named=[(4, 1, 1), (5, 0, 1), (6, 0, 0), (7, 0, 0)],
-                  implicit=[(1, 1, 1), (2, 1, 1), (3, 1, 0), (4, 0, 0)], compose=(2, 1, 1)),
+                  implicit=[(1, 1, 1), (2, 1, 1), (3, 1, 0), (4, 0, 0)], compose=(2, 1, 1), climb=7),
     'thorough': dict(full=[(1, 2, 2), (2, 2, 2), (3, 1, 2)], dev1=[(3, 2, 2), (4, 1, 1)], named=[(4, 2, 2), (5, 1, 1), (6, 0, 1), (7, 0, 0)],
-                     implicit=[(1, 1, 1), (2, 1, 1), (3, 1, 1), (4, 0, 0)], compose=(2, 1, 1)),
+                     implicit=[(1, 1, 1), (2, 1, 1), (3, 1, 1), (4, 0, 0)], compose=(2, 1, 1), climb=8),
 }
+# climb: named chains whose operators also include runs of three and four `^` (over-climbing from depth >= 3), every chain also
+# inside a group under a parent (a group climbs with a stack of its own)
+CLIMB_OPS = ('>', '+', '^', '^^', '^^^', '^^^^')
 NSH = 48
 
 
@@ -45,9 +48,10 @@ def describe(tier):
              'configurations for %s; named only for %s; implicit-name sweep (every written element that is not the parent of an implicit one ranging over ul/table/em/select/tr; parent of every implicit element ranging over '
              '%d names, inlineElements passed explicitly, plus %d names under the default list) for %s; composition sweep over '
              'all ordered pairs of the corpus %s: expand((A)+(B)) = expand(A)+expand(B), expand(x>(A)) = <x>expand(A)</x>, '
-             'expand((A)*2) = expand(A) twice. State = derivation x kinds x configuration; transition = one production / '
+             'expand((A)*2) = expand(A) twice; climb sweep: all named chains of <= %d elements over %s with at least one run of three or '
+             'four `^`, alone and (<= 6 elements) as a group under a parent. State = derivation x kinds x configuration; transition = one production / '
              'option toggle.' % (b['full'], b['dev1'], b['named'], len(PARENTS), len(PARENTS_DEFAULT_INLINE), b['implicit'],
-                                 b['compose']),
+                                 b['compose'], b['climb'], list(CLIMB_OPS)),
         nontrivial='the denoted tree has at least two elements after unrolling.',
         bounds=b,
         assumptions=['`>` directly after `)` is left unspecified', 'element names are not snippets/lorem/label',
@@ -67,6 +71,8 @@ def shards(tier):
                 out.append(dict(mode=mode, n=n, g=g, r=r, k=k, of=ns))
     for k in range(NSH):
         out.append(dict(mode='compose', bound=list(b['compose']), k=k, of=NSH))
+    for k in range(NSH):
+        out.append(dict(mode='climb', n=b['climb'], k=k, of=NSH))
     return out
 
 
@@ -141,10 +147,45 @@ def case_of(seq, labels, style, fmt, inline):
     return dict(seq=seq, labels=labels, style=style, format=fmt, inline=inline, abbr=M.render(seq, labels))
 
 
+def climb_seqs(nmax):
+    for n in range(2, nmax + 1):
+        for ops in itertools.product(CLIMB_OPS, repeat=n - 1):
+            if not any(len(o) > 2 for o in ops):
+                continue            # chains over {>, +, ^, ^^} belong to the `named` sweep
+            yield n, [(('E', None), op) for op in ops] + [(('E', None), None)]
+
+
+def run_climb(shard, ctx):
+    k, of = shard['k'], shard['of']
+    last = None
+    for idx, (n, seq) in enumerate(climb_seqs(shard['n'])):
+        if idx % of != k:
+            continue
+        variants = [(seq, ['x%d' % i for i in range(n)])]
+        if n <= 6:
+            variants.append(([(('E', None), '>'), (('G', seq, None), '+'), (('E', None), None)], ['x%d' % i for i in range(n + 2)]))
+        for sq, labels in variants:
+            ctx.tick((sq, labels))
+            ctx.states += 1
+            ctx.transitions += 1
+            ctx.evals += 1
+            ctx.validated += 1
+            abbr, tree, bad = check_one(sq, labels, 'xml', idx % 2 == 0, None)
+            ctx.nontrivial += 1
+            ctx.outcome((M.tree_size(tree), M.tree_depth(tree), 'climb'))
+            if bad:
+                ctx.violation(bad[0], case_of(sq, labels, 'xml', idx % 2 == 0, None), bad[1])
+            last = abbr
+    if last:
+        ctx.sample(dict(mode='climb', abbr=last))
+
+
 def run_shard(shard, ctx, tier):
     mode = shard['mode']
     if mode == 'compose':
         return run_compose(shard, ctx)
+    if mode == 'climb':
+        return run_climb(shard, ctx)
     n, g, r, k, of = shard['n'], shard['g'], shard['r'], shard['k'], shard['of']
     last = None
     for idx, (seq, _ru) in enumerate(M.gen_seqs(n, g, r)):
